@@ -162,7 +162,7 @@ def tlc(ctx, module, cfg, workers=16, simulate=None, depth=None, seed=None, time
         if "is violated" in line and r.invariant is None:
             r.invariant = line.strip()
             in_trace = True
-        if "Postcondition" in line and "violated" in line.lower():
+        if "Postcondition" in line and ("violated" in line.lower() or "is false" in line):
             r.invariant = "Postcondition"
         if in_trace:
             r.error_trace.append(line)
